@@ -41,6 +41,7 @@ type stepMon struct {
 	lastStart, lastOff                 int
 	curStart, curOff                   int
 	same                               int
+	work                               int // sum of the call-stack depths over the steps
 }
 
 func stepPosHook(start, off int) {
@@ -153,6 +154,13 @@ func stepHook(pc int, inst bytecode.SearchInstruction, btDepth int, callDepth in
 	}
 	if sm.budget > 0 && sm.steps > sm.budget {
 		panic(budgetSentinel{"steps", sm.steps})
+	}
+	// the VM copies its call stack on every step: the work of a run is the sum of the stack depths over its steps. A
+	// runaway recursion reaches that bound (200 x the step budget) after a few thousand steps, long before it has used
+	// the CPU-seconds a library call may take
+	sm.work += callDepth
+	if sm.budget > 0 && sm.work > 200*sm.budget {
+		panic(budgetSentinel{"call-stack work after steps", sm.steps})
 	}
 }
 
